@@ -208,19 +208,23 @@ def valueAtOld {P : Type} [DecidableEq P] (h : Map (P × Nat) Nat) (p : P) (n : 
 
 /-! ### Applying a diff to the contract records and storage -/
 
-def applyReplaced (cs : Map Nat Contract) : List (Nat × Nat) → Except Err (Map Nat Contract)
-  | [] => .ok cs
-  | (a, c) :: d =>
-    match Map.get cs a with
-    | none => .error .contractMissing
-    | some ct => applyReplaced (Map.set cs a { ct with classHash := c }) d
+/-- Read-modify-write of every key of a diff section: the key must be present and pass `bad`
+(else the whole operation fails with `err`), its value becomes `g old x`. -/
+def updAll {ν α : Type} (bad : ν → α → Bool) (g : ν → α → ν) (err : Err) (m : Map Nat ν) :
+    List (Nat × α) → Except Err (Map Nat ν)
+  | [] => .ok m
+  | (k, x) :: d =>
+    match Map.get m k with
+    | none => .error err
+    | some v => if bad v x then .error err else updAll bad g err (Map.set m k (g v x)) d
 
-def applyNonces (cs : Map Nat Contract) : List (Nat × Nat) → Except Err (Map Nat Contract)
-  | [] => .ok cs
-  | (a, n) :: d =>
-    match Map.get cs a with
-    | none => .error .contractMissing
-    | some ct => applyNonces (Map.set cs a { ct with nonce := n }) d
+/-- `ReplacedClasses`: `getStateObject` fails for an unknown contract -/
+def applyReplaced (cs : Map Nat Contract) (d : List (Nat × Nat)) : Except Err (Map Nat Contract) :=
+  updAll (fun _ _ => false) (fun ct c => { ct with classHash := c }) .contractMissing cs d
+
+/-- `Nonces` -/
+def applyNonces (cs : Map Nat Contract) (d : List (Nat × Nat)) : Except Err (Map Nat Contract) :=
+  updAll (fun _ _ => false) (fun ct n => { ct with nonce := n }) .contractMissing cs d
 
 def applyDeployed (n : Nat) (cs : Map Nat Contract) : List (Nat × Nat) → Except Err (Map Nat Contract)
   | [] => .ok cs
@@ -435,25 +439,21 @@ def revertState (cfg : Cfg) (n ver : Nat) (su : SU) (casm : Map Nat CasmMeta) (s
 
 def storeCasm (n : Nat) (b : Block) (casm : Map Nat CasmMeta) : Except Err (Map Nat CasmMeta) := do
   if b.ver ≥ 2 then
-    let c1 := b.diff.declV1.foldl (fun m e => Map.set m e.1 (⟨n, e.2, 0, none⟩ : CasmMeta)) casm
-    b.diff.migrated.foldlM (fun (m : Map Nat CasmMeta) e =>
-      match Map.get m e.1 with
-      | none => throw Err.casm
-      | some md =>
-        if md.v1.isNone || n ≤ md.declaredAt || md.migratedAt > 0 then throw Err.casm
-        else pure (Map.set m e.1 { md with migratedAt := n })) c1
+    let c1 := Map.setAll casm (b.diff.declV1.map (fun e => (e.1, (⟨n, e.2, 0, none⟩ : CasmMeta))))
+    -- `Migrate`: not declared with V2, not before/at its declaration, not migrated already
+    updAll (fun (md : CasmMeta) (_ : Nat) => md.v1.isNone || decide (n ≤ md.declaredAt) || decide (md.migratedAt > 0))
+      (fun md _ => { md with migratedAt := n }) Err.casm c1 b.diff.migrated
   else
-    b.diff.declV1.foldlM (fun (m : Map Nat CasmMeta) e =>
-      match Map.get b.classes e.1 with
-      | none => throw Err.casm
-      | some cd => if cd.sierra then pure (Map.set m e.1 (⟨n, cd.v2, 0, some e.2⟩ : CasmMeta)) else throw Err.casm) casm
+    -- V1 declarations: the definition must be supplied and be a Sierra class
+    if b.diff.declV1.all (fun e => match Map.get b.classes e.1 with | some cd => cd.sierra | none => false) then
+      pure (Map.setAll casm (b.diff.declV1.map (fun e =>
+        (e.1, (⟨n, ((Map.get b.classes e.1).map (·.v2)).getD 0, 0, some e.2⟩ : CasmMeta)))))
+    else throw Err.casm
 
 def revertCasm (d : Diff) (casm : Map Nat CasmMeta) : Except Err (Map Nat CasmMeta) := do
   let c1 := Map.delAll casm (Map.keys d.declV1)
-  d.migrated.foldlM (fun (m : Map Nat CasmMeta) e =>
-    match Map.get m e.1 with
-    | none => throw Err.casm
-    | some md => if md.migratedAt = 0 then throw Err.casm else pure (Map.set m e.1 { md with migratedAt := 0 })) c1
+  -- `Unmigrate`: fails when the class is not migrated
+  updAll (fun (md : CasmMeta) (_ : Nat) => decide (md.migratedAt = 0)) (fun md _ => { md with migratedAt := 0 }) Err.casm c1 d.migrated
 
 /-! ### Running event filter -/
 
